@@ -1,4 +1,5 @@
-\* exhaustive: the repaired design (create-collection request able to carry nullable / default value) satisfies the contract
+\* exhaustive: the repaired design (create-collection request able to carry nullable / default value) satisfies the contract,
+\* including the classes with a sibling drop (prefix-related names) and with drop records made by the writer itself
 SPECIFICATION Spec
 CHECK_DEADLOCK FALSE
 VIEW view
@@ -12,3 +13,7 @@ CONSTANTS
   Pres = {"none", "hop"}
   Maps = {"none", "cover", "other"}
   MapRebuildLossy = FALSE
+  Sibs = {"none", "db", "coll", "member"}
+  Vias = {"seed", "event"}
+  SkipBase = FALSE
+  GcByPrefix = FALSE
